@@ -38,6 +38,7 @@ ALSO = {
     "C04-r8m1": ["C05"],
     "C08-r8m2": ["C10"],
     "C11-r8m2": ["C10"],
+    "C15-r9m1": ["C06"],
 }
 NOTE = {
     "C05-r2m2": "trigger outside C05's quantifier",
@@ -78,7 +79,8 @@ MISSED_FIRST_NEW = {"C02-r5m1", "C02-r5m2", "C03-r5m2", "C04-r5m1", "C05-r5m1", 
                     "C15-r6m2", "C20-r6m1", "C20-r6m2",
                     "C02-r7m1", "C04-r7m1", "C04-r7m2", "C06-r7m2", "C11-r7m1", "C14-r7m2", "C20-r7m1",
                     "C02-r8m2", "C04-r8m1", "C04-r8m2", "C06-r8m2", "C08-r8m2", "C09-r8m2", "C10-r8m1", "C10-r8m2",
-                    "C11-r8m2", "C14-r8m1", "C14-r8m2", "C15-r8m2", "C20-r8m1"}
+                    "C11-r8m2", "C14-r8m1", "C14-r8m2", "C15-r8m2", "C20-r8m1",
+                    "C10-r9m1", "C15-r9m1"}
 
 
 def ids():
